@@ -75,6 +75,10 @@ void SoPlexBase<R>::_optimize(volatile bool* interrupt)
    // remember that last solve was in floating-point
    _lastSolveMode = SOLVEMODE_REAL;
 
+   SOPLEX_VERIF_EVENT("optimize", _hasBasis, realParam(SoPlexBase<R>::OBJLIMIT_LOWER) != -realParam(SoPlexBase<R>::INFTY)
+                      || realParam(SoPlexBase<R>::OBJLIMIT_UPPER) != realParam(SoPlexBase<R>::INFTY), interrupt != nullptr,
+                      boolParam(SoPlexBase<R>::ENSURERAY));
+
    // solve and store solution; if we have a starting basis, do not apply preprocessing; if we are solving from
    // scratch, apply preprocessing according to parameter settings
    if(!_hasBasis && realParam(SoPlexBase<R>::OBJLIMIT_LOWER) == -realParam(SoPlexBase<R>::INFTY)
@@ -124,6 +128,7 @@ void SoPlexBase<R>::_evaluateSolutionReal(typename SPxSimplifier<R>::Result simp
          SPX_MSG_INFO1(spxout, spxout <<
                        "simplifier detected infeasibility or unboundedness - solve again without simplifying" << std::endl;
                       )
+         SOPLEX_VERIF_EVENT("resolve", 1, _simplifier != nullptr, _scaler != nullptr, _isRealLPLoaded * 2 + _isRealLPScaled);
          _preprocessAndSolveReal(false, interrupt);
       }
       else
@@ -161,6 +166,7 @@ void SoPlexBase<R>::_evaluateSolutionReal(typename SPxSimplifier<R>::Result simp
       {
          int polishing = intParam(SoPlexBase<R>::SOLUTION_POLISHING);
          setIntParam(SoPlexBase<R>::SOLUTION_POLISHING, polishing);
+         SOPLEX_VERIF_EVENT("resolve", 2, _simplifier != nullptr, _scaler != nullptr, _isRealLPLoaded * 2 + _isRealLPScaled);
          _preprocessAndSolveReal(false, interrupt);
       }
 
@@ -193,6 +199,7 @@ void SoPlexBase<R>::_evaluateSolutionReal(typename SPxSimplifier<R>::Result simp
          SPX_MSG_INFO1(spxout, spxout <<
                        "encountered singularity - trying to solve again without simplifying" <<
                        std::endl;)
+         SOPLEX_VERIF_EVENT("resolve", 3, _simplifier != nullptr, _scaler != nullptr, _isRealLPLoaded * 2 + _isRealLPScaled);
          _preprocessAndSolveReal(false, interrupt);
          return;
       }
@@ -252,6 +259,20 @@ void SoPlexBase<R>::_preprocessAndSolveReal(bool applySimplifier, volatile bool*
 {
    _solver.changeObjOffset(realParam(SoPlexBase<R>::OBJ_OFFSET));
    _statistics->preprocessingTime->start();
+
+#ifdef SOPLEX_VERIF
+   ++::soplex_verif::solveDepth();
+   struct VerifFrame
+   {
+      SoPlexBase<R>* sp;
+      ~VerifFrame()
+      {
+         SOPLEX_VERIF_EVENT("ret", sp->_isRealLPLoaded, sp->_realLP == &sp->_solver, sp->_isRealLPScaled, sp->_hasBasis);
+         --::soplex_verif::solveDepth();
+      }
+   } verifFrame{this};
+#endif
+   SOPLEX_VERIF_EVENT("frame", applySimplifier, interrupt != nullptr, _hasBasis, _isRealLPLoaded * 2 + _isRealLPScaled);
 
    _applyPolishing = false;
 
@@ -357,8 +378,17 @@ void SoPlexBase<R>::_preprocessAndSolveReal(bool applySimplifier, volatile bool*
          _solver.invalidateBasis();
       }
 
+      SOPLEX_VERIF_EVENT("solve", interrupt != nullptr, _simplifier != nullptr, _scaler != nullptr,
+                         _solver.terminationValue() < R(infinity) && _solver.terminationValue() > R(-infinity));
       _solveRealLPAndRecordStatistics(interrupt);
+      SOPLEX_VERIF_EVENT("solved", (int)_solver.status(), _solver.iterations(), 0, 0);
    }
+#ifdef SOPLEX_VERIF
+   else
+   {
+      SOPLEX_VERIF_EVENT("presolved", (int)simplificationStatus, 0, 0, 0);
+   }
+#endif
 
    _evaluateSolutionReal(simplificationStatus, interrupt);
 }
@@ -440,6 +470,7 @@ void SoPlexBase<R>::_resolveWithoutPreprocessing(typename SPxSimplifier<R>::Resu
    }
 
    // resolve the original problem
+   SOPLEX_VERIF_EVENT("resolve", 4, _simplifier != nullptr, _scaler != nullptr, _isRealLPLoaded * 2 + _isRealLPScaled);
    _preprocessAndSolveReal(false, interrupt);
    return;
 }
@@ -487,6 +518,7 @@ void SoPlexBase<R>::_verifySolutionReal(volatile bool* interrupt)
          ++_unscaleCalls;
       }
 
+      SOPLEX_VERIF_EVENT("resolve", 5, _simplifier != nullptr, _scaler != nullptr, _isRealLPLoaded * 2 + _isRealLPScaled);
       _preprocessAndSolveReal(false, interrupt);
    }
 }
@@ -532,6 +564,7 @@ void SoPlexBase<R>::_verifyObjLimitReal(volatile bool* interrupt)
          ++_unscaleCalls;
       }
 
+      SOPLEX_VERIF_EVENT("resolve", 6, _simplifier != nullptr, _scaler != nullptr, _isRealLPLoaded * 2 + _isRealLPScaled);
       _preprocessAndSolveReal(false, interrupt);
    }
 }
@@ -665,6 +698,7 @@ void SoPlexBase<R>::_storeSolutionReal(bool verify, volatile bool* interrupt)
          SPX_MSG_INFO1(spxout, spxout << "Caught exception <" << E.what() <<
                        "> during unsimplification. Resolving without simplifier and scaler.\n");
          _hasBasis = false;
+         SOPLEX_VERIF_EVENT("resolve", 7, _simplifier != nullptr, _scaler != nullptr, _isRealLPLoaded * 2 + _isRealLPScaled);
          _preprocessAndSolveReal(false, interrupt);
          return;
       }
@@ -767,6 +801,7 @@ void SoPlexBase<R>::_storeSolutionRealFromPresol(volatile bool* interrupt)
    {
       SPX_MSG_INFO1(spxout, spxout << "Caught exception <" << E.what() <<
                     "> during unsimplification. Resolving without simplifier and scaler.\n");
+      SOPLEX_VERIF_EVENT("resolve", 8, _simplifier != nullptr, _scaler != nullptr, _isRealLPLoaded * 2 + _isRealLPScaled);
       _preprocessAndSolveReal(false, interrupt);
       return;
    }
